@@ -1,5 +1,5 @@
 (* C07 model driver: one case per line on stdin, one answer line per case.
-   RUN natoms m.. cell kT hide subtract samestep includecv ncomp {comp coeff}.. nsteps {pos(3n) eforce(3n) fb apply}..
+   RUN natoms m.. cell kT hide subtract samestep includecv ncomp {comp coeff}.. nsteps {pos(3n) eforce(3n) fb apply kT hide subtract coeff(ncomp)}..
      -> per step "value ft f fx fy fz .." joined by " | "
    CVC natoms m.. cell comp pos(3n) F(3n) fc -> "value jd ft forces(3n)"
    comp:  D g g os | DZ g g og ax ay az os | DXY g g og ax ay az os | A g g g os | DH g g g g os
@@ -72,14 +72,19 @@ let () =
            let comps = List.init nc (fun _ -> let c = comp () in let k = nf () in (c, k)) in
            let cv = { cv_comps = comps; cv_hide = hide; cv_subtract = sub; cv_samestep = same; cv_kT = kt } in
            let ns = ni () in
-           let inputs = List.init ns (fun _ -> let ps = field n in let fs = field n in let fb = nf () in let ap = nb () in
+           let inputs = List.init ns (fun _ -> let ps = field n in let fs = field n in let fb = nf () in let ap = nb () in let ktt = nf () in let hidet = nb () in let subt = nb () in let cft = List.init nc (fun _ -> nf ()) in
                                        List.iter (fun t -> let q0 = nf () in let q1 = nf () in let q2 = nf () in let q3 = nf () in let j = nf () in
                                                    let nfit = ni () in let fit = List.init nfit (fun _ -> v3 ()) in
                                                    t := (ps, (((q0, q1), q2), q3), j, fit) :: !t) !rtabs;
-                                       { e_pos = ps; e_force = fs; e_fb = fb; e_apply = ap }) in
-           let (_, outs) = eng_run fops pi cell mass cv inc (eng_init fops) inputs in
-           let one (i : float einput) (o : float cvout) =
-             let value = List.fold_left (fun acc (c, k) -> acc +. k *. cvc_value fops pi cell mass i.e_pos c) 0.0 comps in
+                                       ({ e_pos = ps; e_force = fs; e_fb = fb; e_apply = ap }, (ktt, hidet, subt, cft))) in
+           (* the configuration of each step (temperature, hideJacobian, subtractAppliedForce may change during the run) *)
+           let (_, routs) = List.fold_left (fun (st, acc) (i, (k, h, sb, cf)) ->
+               let cvt = { cv with cv_kT = k; cv_hide = h; cv_subtract = sb; cv_comps = List.map2 (fun (c, _) x -> (c, x)) comps cf } in
+               let v = List.fold_left2 (fun a (c, _) x -> a +. x *. cvc_value fops pi cell mass i.e_pos c) 0.0 comps cf in
+               let (st', o) = eng_step fops pi cell mass cvt inc st i in (st', (o, v) :: acc)) (eng_init fops, []) inputs in
+           let outs = List.rev routs in
+           let inputs = List.map fst inputs in
+           let one (i : float einput) ((o : float cvout), (value : float)) =
              String.concat " " ([hex value; hex o.o_ft; hex o.o_f] @
                                 List.init n (fun a -> p3 (o.o_forces (nat_of_int a)))) in
            print_string (String.concat " | " (List.map2 one inputs outs)); print_newline ()
